@@ -26,6 +26,65 @@ use winter_utils::{ByteReader, ByteWriter, DeserializationError, ReadAdapter, Sl
 
 pub struct P;
 
+// ------------------------------------------------------------------------------------ allocator
+/// counts the bytes requested from the allocator: no reader may reserve memory for a count it has merely been told
+/// (same judgement as c06.rs / c12.rs)
+struct Counting;
+static CUR: std::sync::atomic::AtomicUsize = std::sync::atomic::AtomicUsize::new(0);
+static PEAK: std::sync::atomic::AtomicUsize = std::sync::atomic::AtomicUsize::new(0);
+fn note_add(n: usize) {
+    use std::sync::atomic::Ordering::Relaxed;
+    let c = CUR.fetch_add(n, Relaxed) + n;
+    PEAK.fetch_max(c, Relaxed);
+}
+unsafe impl std::alloc::GlobalAlloc for Counting {
+    unsafe fn alloc(&self, l: std::alloc::Layout) -> *mut u8 {
+        let p = std::alloc::System.alloc(l);
+        if !p.is_null() {
+            note_add(l.size());
+        }
+        p
+    }
+    unsafe fn alloc_zeroed(&self, l: std::alloc::Layout) -> *mut u8 {
+        let p = std::alloc::System.alloc_zeroed(l);
+        if !p.is_null() {
+            note_add(l.size());
+        }
+        p
+    }
+    unsafe fn dealloc(&self, p: *mut u8, l: std::alloc::Layout) {
+        std::alloc::System.dealloc(p, l);
+        CUR.fetch_sub(l.size(), std::sync::atomic::Ordering::Relaxed);
+    }
+    unsafe fn realloc(&self, p: *mut u8, l: std::alloc::Layout, new: usize) -> *mut u8 {
+        let q = std::alloc::System.realloc(p, l, new);
+        if !q.is_null() {
+            if new >= l.size() {
+                note_add(new - l.size());
+            } else {
+                CUR.fetch_sub(l.size() - new, std::sync::atomic::Ordering::Relaxed);
+            }
+        }
+        q
+    }
+}
+#[global_allocator]
+static GLOBAL: Counting = Counting;
+
+/// run `f`, return its result and the peak growth of live heap bytes while it ran
+fn measured<T>(f: impl FnOnce() -> T) -> (T, usize) {
+    use std::sync::atomic::Ordering::Relaxed;
+    let base = CUR.load(Relaxed);
+    PEAK.store(base, Relaxed);
+    let r = f();
+    (r, PEAK.load(Relaxed).saturating_sub(base))
+}
+/// heap one reader call may request on a stream of this many bytes (the canonical output string of the call is
+/// allocated inside the measurement: a few bytes per stream byte)
+fn alloc_limit(stream_len: usize) -> usize {
+    (64usize << 20).min(1000 * stream_len + (1 << 20))
+}
+
 // ------------------------------------------------------------------------------------ source
 /// a `std::io::Read` that hands out the data in the prescribed chunks
 struct ChunkSrc {
@@ -489,7 +548,14 @@ fn run_line(line: &str) -> Outcome {
         if premature.get() {
             judging = false;
         }
-        let got = match guarded(|| apply(&mut adapter, op, limit)) {
+        let (got, growth) = measured(|| guarded(|| apply(&mut adapter, op, limit)));
+        if growth > alloc_limit(data.len()) && judging {
+            o = o.fail(
+                format!("adapter.{}.alloc", op_name(op)),
+                format!("op `{}` on a stream of {} bytes requested {} bytes of heap (limit {})", op_str(op), data.len(), growth, alloc_limit(data.len())),
+            );
+        }
+        let got = match got {
             Ok(s) => s,
             Err(info) => {
                 outs.push("panic".into());
@@ -505,7 +571,11 @@ fn run_line(line: &str) -> Outcome {
         }
         let want = pure_step(visible, &mut ppos, op, limit);
         if slice_ok {
-            match guarded(|| apply(&mut slice, op, limit)) {
+            let (r, growth) = measured(|| guarded(|| apply(&mut slice, op, limit)));
+            if growth > alloc_limit(data.len()) {
+                o = o.fail(format!("slice.{}.alloc", op_name(op)), format!("op `{}` on {} bytes requested {} bytes of heap", op_str(op), data.len(), growth));
+            }
+            match r {
                 Ok(s) if s == want => {},
                 Ok(s) => {
                     slice_ok = false;
@@ -521,7 +591,11 @@ fn run_line(line: &str) -> Outcome {
             }
         }
         if cursor_ok {
-            match guarded(|| apply(&mut cursor, op, limit)) {
+            let (r, growth) = measured(|| guarded(|| apply(&mut cursor, op, limit)));
+            if growth > alloc_limit(data.len()) {
+                o = o.fail(format!("cursor.{}.alloc", op_name(op)), format!("op `{}` on {} bytes requested {} bytes of heap", op_str(op), data.len(), growth));
+            }
+            match r {
                 Ok(s) if s == want => {},
                 Ok(s) => {
                     cursor_ok = false;
@@ -1109,6 +1183,69 @@ fn big_streams(rng: &mut Rng, tier: Tier, emit: &mut dyn FnMut(String)) {
     }
 }
 
+/// `read_many` (and the other count-taking calls) with counts no stream can satisfy, 2^16 + 1 .. usize::MAX, issued while
+/// the adapter has not yet seen the end of the stream (first call, or after one buffered byte) and after it has, on
+/// streams whose tail after the call is 0, 1, 255, 256, 257 or 1000 bytes, for every element type and every kind of
+/// chunking: the three readers must give the same error and none may reserve memory for the count (`*.alloc`; the
+/// workers run under an address-space cap, so a full reservation aborts the worker)
+fn huge_counts(rng: &mut Rng, emit: &mut dyn FnMut(String)) {
+    let counts: [usize; 17] = [
+        (1 << 16) + 1,
+        1 << 20,
+        1 << 24,
+        1 << 28,
+        (1 << 31) - 1,
+        1 << 31,
+        (1 << 32) - 1,
+        1 << 32,
+        (1 << 32) + 1,
+        1 << 62,
+        (1 << 63) - 1,
+        1 << 63,
+        (1 << 63) + 1,
+        usize::MAX / 16,
+        usize::MAX / 8 + 1,
+        usize::MAX - 1,
+        usize::MAX,
+    ];
+    let tails = [0usize, 1, 255, 256, 257, 1000];
+    let chunkings = ["c1", "c7", "c256", "c100000", "l:300,1", "l:255,2"];
+    let mut k = 0usize;
+    for t in MANY_TYPES.iter().filter(|t| **t != "unit") {
+        for (ci, n) in counts.iter().enumerate() {
+            for (ti, tl) in tails.iter().enumerate() {
+                k += 1;
+                // zeros parse as elements of every type (`None`, 9-byte vints); random bytes end `opt` / `us` early
+                let data = if k % 3 == 0 { vec![0u8; *tl + 1] } else { rng.bytes(*tl + 1) };
+                for (hi, ch) in chunkings.iter().enumerate() {
+                    // every count under two of the chunkings, the largest ones under all
+                    if ci < 13 && (k + hi) % 3 != 0 {
+                        continue;
+                    }
+                    // first call of the history
+                    emit_line(emit, &data[1..], ch, &[Op::Many(t, *n), Op::More, Op::Eor(1), Op::Drain]);
+                    if (k + hi) % 2 == 0 {
+                        // after a buffered byte, with a look-ahead that an optimistic reader answers `ok`
+                        emit_line(emit, &data, ch, &[Op::U8, Op::Eor(*n), Op::Many(t, *n), Op::More, Op::Drain]);
+                    } else {
+                        // after the end of the stream has been observed by a failed read
+                        emit_line(emit, &data, ch, &[Op::Slice(data.len() + 1), Op::Many(t, *n), Op::Many(t, *n), Op::Drain]);
+                    }
+                }
+            }
+        }
+    }
+    // the other count-taking calls on the same counts
+    for n in counts.iter() {
+        for tl in [0usize, 1, 256, 1000] {
+            let data = rng.bytes(tl);
+            for ch in ["c1", "c256", "c100000"] {
+                emit_line(emit, &data, ch, &[Op::Eor(*n), Op::Vec(*n), Op::More, Op::Str(*n), Op::Slice(*n), Op::Drain]);
+            }
+        }
+    }
+}
+
 fn emit_line(emit: &mut dyn FnMut(String), data: &[u8], chunking: &str, ops: &[Op]) {
     let o: Vec<String> = ops.iter().map(op_str).collect();
     emit(format!("{} {} {}", hex(data), chunking, o.join(";")));
@@ -1175,6 +1312,7 @@ impl Prop for P {
         }
         targeted(rng, emit);
         big_streams(rng, tier, emit);
+        huge_counts(rng, emit);
         // --- random histories
         for i in 0..n {
             let nops = rng.range(1, 40) as usize;
@@ -1260,6 +1398,11 @@ impl Prop for P {
 
     fn timeout_ms(&self) -> u64 {
         5000
+    }
+
+    /// address-space cap of a worker: a reader that reserves an untrusted count aborts the worker, not the machine
+    fn mem_cap(&self) -> u64 {
+        2 << 30
     }
 
     fn panic_site(&self, _line: &str) -> Option<String> {
